@@ -19,8 +19,10 @@ def mk_exc(name):
 
 
 class Caller:
-    def __init__(self, idx, origin, hold=False, pool_timeout=None, body=None):
+    def __init__(self, idx, origin, hold=False, pool_timeout=None, body=None, mode="read"):
         self.idx, self.origin, self.hold = idx, origin, hold
+        self.mode = mode              # read | abandon (close without reading) | partial (first part, then close)
+        self.partial = None
         self.pool_timeout = pool_timeout
         self.state = "new"            # new -> running -> holding -> done
         self.outcome = None
@@ -62,7 +64,20 @@ class Explorer:
             p.readable = lambda p=p: bool(p.out) or p.server_closed
         else:
             pol = servers.closing_policy if self.rng.random() < self.cfg.get("p_conn_close", 0.0) else None
-            p = servers.H1Server(policy=pol)
+            if self.cfg.get("policies"):
+                pol = getattr(servers, self.rng.choice(self.cfg["policies"]))
+            seg = None
+            if self.cfg.get("h1_segment"):
+                sr = random.Random(self.rng.randrange(1 << 30))
+
+                def seg(data, sr=sr):
+                    out, i = [], 0
+                    while i < len(data):
+                        n = sr.choice([1, 3, 17, 200, 5000])
+                        out.append(data[i:i + n])
+                        i += n
+                    return out
+            p = servers.H1Server(policy=pol, segmenter=seg)
         p.host = rec.get("host")
         self.peers.append(p)
         return p
@@ -101,10 +116,15 @@ class Explorer:
                         await c.release.wait()
                         c.state = "running"
                     chunks = []
-                    async for part in resp.aiter_stream():
-                        chunks.append(part)
-                    c.body = b"".join(chunks)
-                c.outcome = "ok"
+                    if c.mode == "read":
+                        async for part in resp.aiter_stream():
+                            chunks.append(part)
+                        c.body = b"".join(chunks)
+                    elif c.mode == "partial":
+                        async for part in resp.aiter_stream():
+                            c.partial = part
+                            break
+                c.outcome = "ok" if c.mode == "read" else "abandoned"
             if scope.cancelled_caught:
                 c.outcome = "cancelled"
         except BaseException as e:  # noqa
@@ -176,11 +196,23 @@ class Explorer:
             ok = c.is_idle() or c.is_closed() or c.has_expired()
             if not ok:
                 self.violations.append(("C05:connection-in-limbo", {"info": c.info(), "repr": repr(pool)}))
+        self.check_crosstalk()
+
+    def check_crosstalk(self):
+        """C01: every response (or part of one) a caller received is the echo of its own request; no socket was reused early"""
+        if getattr(self, "_crosstalk_done", False):
+            return
+        self._crosstalk_done = True
         for c in self.callers:
+            want = b"echo:/" + c.token.encode() + b":" + (c.req_body or b"")
             if c.outcome == "ok":
-                want = b"echo:/" + c.token.encode() + b":" + (c.req_body or b"")
-                if c.body != want:
+                if c.body not in (want, want + b":" + b"z" * 3000):
                     self.violations.append(("C01:wrong-response", {"caller": c.idx, "got": repr(c.body)[:80], "want": repr(want)[:80]}))
+            if c.partial is not None and not (want + b":" + b"z" * 3000).startswith(c.partial):
+                self.violations.append(("C01:wrong-response", {"caller": c.idx, "got": repr(c.partial)[:80], "want": repr(want)[:80], "partial": True}))
+        for p in self.peers:
+            for v in getattr(p, "reuse_violations", []):
+                self.violations.append(("C01:reused-before-exchange-finished", dict(v, first_bytes=repr(v["first_bytes"]))))
 
     def check_after_close(self):
         if self.net.open_sockets():
@@ -311,7 +343,8 @@ async def random_schedule(ex, spawn, settle):
         if a == "spawn":
             i = to_spawn.pop(0)
             c = Caller(i, rng.randrange(cfg["origins"]), hold=rng.random() < cfg.get("p_hold", 0.3),
-                       pool_timeout=cfg.get("pool_timeout"), body=(b"B%d" % i if rng.random() < cfg.get("p_body", 0.0) else None))
+                       pool_timeout=cfg.get("pool_timeout"), body=(b"B%d" % i if rng.random() < cfg.get("p_body", 0.0) else None),
+                       mode=rng.choice(cfg.get("modes", ["read"])))
             ex.callers.append(c)
             spawn(c)
             ex.trace.append(("spawn", i, c.origin, c.hold))
@@ -413,6 +446,7 @@ async def random_schedule(ex, spawn, settle):
         ex.violations.append(("C07:caller-blocked-forever", {"callers": [(c.idx, c.state) for c in stuck], "snapshot": ex.snapshot()}))
     elif not getattr(ex, "probe_failed", False):
         ex.check_final()
+    ex.check_crosstalk()
     ex.net.gated = False            # the closing operations of pool.aclose() complete at once
     if not stuck and not getattr(ex, "probe_failed", False):
         await ex.pool.aclose()
